@@ -39,13 +39,21 @@ NONTRIVIAL = ('shortest_int: distinct (sorted data, percent) with a repeated dat
               'levels (tag carries whether samples fall outside the estimated range, i.e. saturation is exercised)')
 
 PERCENTS = (10, 25, 50, 75, 90, 99.99)
+# the statement quantifies over percentages in (0, 100): values below 1 (lag 0 on short data, lag >= 1 only on records of
+# more than 100/p samples), around 1, non-integer values with an exact product (12.5 % of 8), and values close to 100
+PERCENTS_EDGE = (0.01, 0.25, 0.5, 0.9, 0.99, 1, 1.5, 12.5, 37.5, 62.5, 99, 99.5, 99.9, 99.999)
+PSETS = {'std': PERCENTS, 'edge': PERCENTS_EDGE}
 ALPHABETS = {
     'int4': (0.0, 1.0, 2.0, 3.0),
     'mix': (0.0, 0.5, 1e-3, 7.0),
     'tiny': (0.0, 1e-11, 2e-11, 3e-11),
     'i64': (0, 1, 2, 3),
+    'i32s': (-2, -1, 0, 1),       # signed raw counts
+    'u16': (0, 1, 2, 3),          # unsigned raw counts
 }
+ALPHA_DTYPE = {'i64': np.int64, 'i32s': np.int32, 'u16': np.uint16}
 EPS = float(np.finfo(float).eps)
+EPS32 = float(np.finfo(np.float32).eps)
 
 
 # ------------------------------------------------------------------ lag
@@ -157,15 +165,15 @@ def vectors(alpha, length, prefix):
 
 
 def si_batch(case):
-    """case = (alphabet name, length, prefix): all vectors of that length with that prefix x all percents"""
-    alpha, length, prefix = case
-    dtype = np.int64 if alpha == 'i64' else float
+    """case = (alphabet name, length, prefix, percent set): all vectors of that length with that prefix x all percents"""
+    alpha, length, prefix, pset = case
+    dtype = ALPHA_DTYPE.get(alpha, float)
     ncall = 0
     nts, outs = set(), set()
     fails, failcount = {}, {}
     h = zlib.crc32(b'')
     for vec in vectors(alpha, length, prefix):
-        for p in PERCENTS:
+        for p in PSETS[pset]:
             key, msg, otag, nt = si_eval(vec, p, dtype)
             ncall += 1
             outs.add(otag)
@@ -186,7 +194,7 @@ def si_batch(case):
 def si_single(case):
     """one vector, one percent (replayable form of a failure found by a batch)"""
     alpha, vec, p = case
-    key, msg, otag, nt = si_eval(tuple(vec), p, np.int64 if alpha == 'i64' else float)
+    key, msg, otag, nt = si_eval(tuple(vec), p, ALPHA_DTYPE.get(alpha, float))
     return res(viol=[(key, msg)] if key else [], obs=otag, nontrivial=nt if nt is not None else False)
 
 
@@ -217,6 +225,43 @@ def gen_data(kind, n, seed):
     raise KeyError(kind)
 
 
+# dtype forms of a record: 'f8' is the float64 record itself; 'f4' its float32 rounding; the integer forms are raw counts
+# (1 unit = 1000 counts: +-4 sigma = +-4000 counts, the +-10 sigma outliers = +-10000 counts fit int16, no difference of two
+# samples leaves the dtype); the unsigned form rides on a 20000-count offset (all samples 10000..30000 fit uint16);
+# 'i2fs' is a full-scale int16 capture (1 unit = 3000 counts: +-10 sigma = +-30000, so differences of two samples do not fit
+# int16 although every sample does)
+COUNTS = {'i2': (1000, 0), 'i4': (1000, 0), 'i8': (1000, 0), 'u2': (1000, 20000), 'i2fs': (3000, 0)}
+NP_DTYPE = {'f8': np.float64, 'f4': np.float32, 'i2': np.int16, 'i4': np.int32, 'i8': np.int64, 'u2': np.uint16,
+            'i2fs': np.int16}
+
+
+def as_dtype(base, dt, unsigned_abs=False):
+    """float64 record -> the dtype form `dt` (see COUNTS); never constant"""
+    if dt == 'f8':
+        return base
+    if dt == 'f4':
+        x = base.astype(np.float32)
+    else:
+        scale, off = COUNTS[dt]
+        c = np.round(base * scale)
+        if unsigned_abs and off:         # a noise component in an unsigned dtype cannot be negative
+            c = np.abs(c)
+        elif off:
+            c = c + off
+        info = np.iinfo(NP_DTYPE[dt])
+        assert c.min() >= info.min and c.max() <= info.max, (dt, c.min(), c.max())
+        x = c.astype(NP_DTYPE[dt])
+    if np.ptp(x) == 0:
+        x[0] += 1
+    return x
+
+
+def gen_signal(kind, n, seed):
+    """kind = '<family>' (float64) or '<family>@<dtype form>'"""
+    fam, _, dt = kind.partition('@')
+    return as_dtype(gen_data(fam, n, seed), dt or 'f8')
+
+
 def ref_long(x, lag):
     """-> (sorted, min width, indices of minimal windows)"""
     s = np.sort(np.asarray(x, dtype=float))
@@ -229,7 +274,7 @@ def ref_long(x, lag):
 def si_long(case):
     kind, n, p, seed = case
     from opticomlib.utils import shortest_int
-    x = gen_data(kind, n, seed)
+    x = gen_signal(kind, n, seed)
     x.flags.writeable = False
     lags = lag_set(n, p)
     name = f'shortest_int(<{kind} n={n} seed={seed}>, {p})'
@@ -278,7 +323,14 @@ def si_long(case):
 ADC_KINDS = ('gauss', 'uniform', 'sine', 'quant16', 'gauss_out')
 ADC_LENGTHS = (2, 3, 100, 9999, 10000, 20000, 2 ** 17)
 ADC_FORMS = ('ndarray', 'container', 'container+noise')
+ADC_DTYPES = ('f8', 'i4', 'i8', 'i2', 'f4')  # TEMP     # see COUNTS
+ADC_NS = tuple(range(1, 13))
+ADC_SWEEP = tuple((n, o) for n in ADC_NS for o in ('n', 'v'))  # the conversions applied to ONE shared input object
 CLAUSES = ('length', 'integer-codes', 'saturation', 'range', 'levels', 'half-step')
+CLAUSE_KEY = {'length': 'ADC:length', 'integer-codes': 'ADC:non-integer-codes', 'range': 'ADC:out-of-range',
+              'levels': 'ADC:levels>2^n', 'half-step': 'ADC:inside-moves>half-step'}
+# input classes whose failures get their own keys: the arithmetic of the input's own integer dtype wraps around
+WRAP_DTYPES = {'u2': 'unsigned-int-input', 'i2fs': 'full-scale-int16-input'}
 
 
 def adc_candidates(x):
@@ -294,15 +346,16 @@ def adc_candidates(x):
     return cands
 
 
-def adc_clauses(x, out, n, otype, vmin, vmax, model):
+def adc_clauses(x, out, n, otype, vmin, vmax, model, eps=EPS):
     """-> dict clause -> message, for one candidate range and one quantiser model.
     model 'tread': 2^n levels V_min + c*R/(2^n-1) (end levels on the range ends, step R/(2^n-1));
-    model 'rise' : 2^n levels V_min + (c+1/2)*R/2^n (cells of width R/2^n). The statement does not say which."""
+    model 'rise' : 2^n levels V_min + (c+1/2)*R/2^n (cells of width R/2^n). The statement does not say which.
+    eps: machine epsilon of the arithmetic the input's dtype implies (float32 input -> float32 arithmetic)."""
     bad = {}
     L = 2 ** n
     R = vmax - vmin
     S = max(abs(vmin), abs(vmax), R)
-    tol = 32 * EPS * S          # a handful of flops on magnitudes <= S (scaling, rounding decision, back-mapping)
+    tol = 32 * eps * S          # a handful of flops on magnitudes <= S (scaling, rounding decision, back-mapping)
     if model == 'tread':
         step = R / (L - 1)
         level = lambda c: vmin + c * step
@@ -353,33 +406,38 @@ def adc_clauses(x, out, n, otype, vmin, vmax, model):
     return bad
 
 
-def adc_case(case):
-    kind, length, n, otype, form, seed = case
-    from mcx.core.env import gv_reset
-    from opticomlib.devices import ADC
+def adc_input(kind, length, dt, form, seed):
+    """-> (argument for ADC, float64 copy of the real signal the converter has to quantise).
+    The integer forms are exact in float64; for float32 the reference is the float32 sum signal+noise (the real sum is
+    within eps32 of it, which the float32 tolerance of adc_clauses covers)."""
     from opticomlib.typing import electrical_signal
-    gv_reset()
-    np.random.seed(0)
-    sig = gen_data(kind, length, seed)
+    sig = as_dtype(gen_data(kind, length, seed), dt)
     if form == 'ndarray':
         arg, x = sig, sig
     elif form == 'container':
-        arg, x = electrical_signal(sig), sig
+        arg = electrical_signal(sig)
+        x = arg.signal
     else:
-        noise = 0.05 * _rs(seed, 'noise', kind, length).normal(0.0, 1.0, length)
+        noise = as_dtype(0.05 * _rs(seed, 'noise', kind, length).normal(0.0, 1.0, length), dt, unsigned_abs=True)
         arg = electrical_signal(sig, noise)
         x = arg.signal + arg.noise
-    x = np.array(x, dtype=float)
-    name = f'ADC(<{kind} len={length} {form} seed={seed}>, n={n}, otype={otype!r})'
-    y = ADC(arg, n=n, otype=otype)
+    return arg, np.array(x, dtype=float)
+
+
+def adc_output(y):
     out = np.asarray(getattr(y, 'signal', y))
     if getattr(y, 'noise', None) is not None:
         out = out + np.asarray(y.noise)
-    cands = adc_candidates(x)
+    return out
+
+
+def adc_judge(x, out, n, otype, cands, dt):
+    """try every minimal range x both quantiser models; -> (key|None, message, #samples outside the best range)"""
+    eps = EPS32 if dt == 'f4' else EPS
     best = None
     for (vmin, vmax) in cands:
         for model in ('tread', 'rise'):
-            bad = adc_clauses(x, out, n, otype, vmin, vmax, model)
+            bad = adc_clauses(x, out, n, otype, vmin, vmax, model, eps)
             first = min((CLAUSES.index(c) for c in bad), default=len(CLAUSES))
             score = (first, -len(bad))
             if best is None or score > best[0]:
@@ -390,53 +448,130 @@ def adc_case(case):
             break
     _, bad, vmin, vmax, model = best
     n_out = int(np.sum((x < vmin) | (x > vmax)))
+    if not bad:
+        return None, '', n_out
+    c = min(bad, key=CLAUSES.index)
+    m = bad[c]
+    if c == 'saturation':
+        beyond, m = m
+        key = 'ADC:no-saturation' if beyond else 'ADC:outside-not-end-code'
+    else:
+        key = CLAUSE_KEY[c]
+    others = [k for k in bad if k != c]
+    if dt in WRAP_DTYPES:      # one defect class (arithmetic carried out in the input's own integer dtype) -> one key per class
+        m = f'[{key}] ' + m
+        key = 'ADC:integer-input-wraparound:' + WRAP_DTYPES[dt]
+    return (key, m + (f' [also failing: {", ".join(others)}]' if others else '') +
+            f' (best of {len(cands)} minimal range(s), model {model})', n_out)
+
+
+def _digest(out):
+    import hashlib
+    return (out.shape, str(out.dtype), hashlib.sha256(np.ascontiguousarray(out).tobytes()).hexdigest()[:16])
+
+
+def adc_case(case):
+    """one conversion of a freshly built input"""
+    kind, length, dt, n, otype, form, seed = case
+    from mcx.core.env import gv_reset
+    from opticomlib.devices import ADC
+    gv_reset()
+    np.random.seed(0)
+    arg, x = adc_input(kind, length, dt, form, seed)
+    name = f'ADC(<{kind} {dt} len={length} {form} seed={seed}>, n={n}, otype={otype!r})'
+    y = ADC(arg, n=n, otype=otype)
+    out = adc_output(y)
+    cands = adc_candidates(x)
+    key, msg, n_out = adc_judge(x, out, n, otype, cands, dt)
     nlev = len(np.unique(out)) if out.ndim == 1 else 0
     stats = {'adc_cases': 1, 'adc_cases_with_outside_samples': int(n_out > 0), 'adc_candidate_ranges': len(cands)}
-    nt = (kind, length, n, otype, form, n_out > 0) if nlev >= 2 else False
-    viol = []
-    if bad:
-        c = min(bad, key=CLAUSES.index)
-        m = bad[c]
-        if c == 'saturation':
-            beyond, m = m
-            key = 'ADC:no-saturation' if beyond else 'ADC:outside-not-end-code'
-        else:
-            key = {'length': 'ADC:length', 'integer-codes': 'ADC:non-integer-codes', 'range': 'ADC:out-of-range',
-                   'levels': 'ADC:levels>2^n', 'half-step': 'ADC:inside-moves>half-step'}[c]
-        others = [k for k in bad if k != c]
-        viol.append((key, f'{name}: {m}' + (f' [also failing: {", ".join(others)}]' if others else '') +
-                     f' (best of {len(cands)} minimal range(s), model {model})'))
-    import hashlib
-    obs = (out.shape, str(out.dtype), hashlib.sha256(np.ascontiguousarray(out).tobytes()).hexdigest()[:16])
-    return res(viol=viol, obs=obs, nontrivial=nt, stats=stats)
+    nt = (kind, length, dt, n, otype, form, n_out > 0) if nlev >= 2 else False
+    viol = [(key, f'{name}: {msg}')] if key else []
+    return res(viol=viol, obs=_digest(out), nontrivial=nt, stats=stats)
+
+
+def adc_sweep(case):
+    """ONE input object converted with every (n, otype) in turn (a bit-depth sweep); every conversion is judged against
+    the signal the caller handed over, and the argument's bytes are compared with a snapshot after every call.
+    protect=True additionally write-protects the argument's buffers (the statement's x is an operand, not an output)."""
+    kind, length, dt, form, protect, seed = case
+    from mcx.core.env import gv_reset, freeze, unchanged
+    from opticomlib.devices import ADC
+    gv_reset()
+    np.random.seed(0)
+    arg, x = adc_input(kind, length, dt, form, seed)
+    snap = freeze(arg)
+    if not protect:
+        for a in ([arg] if isinstance(arg, np.ndarray) else [getattr(arg, k, None) for k in ('signal', 'noise')]):
+            if isinstance(a, np.ndarray):
+                a.flags.writeable = True
+    cands = adc_candidates(x)
+    base = f'<{kind} {dt} len={length} {form} seed={seed}{" write-protected" if protect else ""}>'
+    viol, seen = [], set()
+    digests = []
+    n_multi = 0
+    n_outside = 0
+    for k, (n, otype) in enumerate(ADC_SWEEP):
+        name = f'conversion #{k + 1} of one shared input: ADC({base}, n={n}, otype={otype!r})'
+        try:
+            y = ADC(arg, n=n, otype=otype)
+        except ValueError as e:
+            if protect and 'read-only' in str(e):
+                viol.append(('ADC:writes-into-argument', f'{name} tried to write into its write-protected argument: {e}'))
+                break
+            raise
+        out = adc_output(y)
+        digests.append(_digest(out))
+        key, msg, n_out = adc_judge(x, out, n, otype, cands, dt)
+        n_outside = max(n_outside, n_out)
+        if out.ndim == 1 and len(np.unique(out)) >= 2:
+            n_multi += 1
+        if key:
+            if k > 0 and dt not in WRAP_DTYPES:
+                key += ':reused-input'
+            if key not in seen:
+                seen.add(key)
+                viol.append((key, f'{name}: {msg}'))
+        if 'ADC:argument-modified' not in seen and not unchanged(arg, snap):
+            seen.add('ADC:argument-modified')     # keep converting: the later calls show what the caller then gets
+            viol.append(('ADC:argument-modified', f'{name} changed the bytes of its argument (signal/noise buffers compared '
+                         f'with the snapshot taken before the first conversion)'))
+    stats = {'adc_sweeps': 1, 'adc_sweep_calls': len(digests), 'adc_sweeps_with_outside_samples': int(n_outside > 0)}
+    nt = (kind, length, dt, form, protect, n_outside > 0) if n_multi >= 2 else False
+    return res(viol=viol, obs=tuple(digests), nontrivial=nt, stats=stats, payload={'calls': len(digests)})
 
 
 # ------------------------------------------------------------------ run
-def _batches(alpha, maxlen):
+def _batches(alpha, maxlen, pset='std'):
     out = []
     vals = ALPHABETS[alpha]
     for length in range(1, maxlen + 1):
         for prefix in itertools.product(vals, repeat=min(length, 3)):
-            out.append((alpha, length, prefix))
+            out.append((alpha, length, prefix, pset))
     return out
 
 
 def run(ctx):
     q = ctx.quick
     ctx.rule('shortest_int: every vector of length 1..Lmax over a 4-value alphabet (lexicographic, shortest first), each '
-             'with every percentage in {10,25,50,75,90,99.99}; one worker call per (alphabet, length, 3-symbol prefix); '
+             'with every percentage of the set (std {10,25,50,75,90,99.99}; edge = 14 values below 1, around 1, fractional, '
+             'close to 100); one worker call per (alphabet, length, 3-symbol prefix); '
              'evaluations counts single shortest_int/ADC calls; seeded long vectors select content only via VERIF_SEED. '
-             'ADC: full product signal family x length x n x otype x input form')
+             'ADC: full product signal family x length x dtype form x n x otype x input form (fresh input per call), and '
+             'family x length x dtype form x input form x write-protection with all 24 (n, otype) applied to ONE input object')
     ctx.assume('numpy sort/min/subtract are correct (the reference uses them on long vectors; python arithmetic on short ones)')
     ctx.assume('float subtraction is monotone, so "returned width > minimal width" in floats implies the same for the exact reals')
     ctx.assume('a constant signal (V_max == V_min, zero quantisation step) is outside the quantifier and is not enumerated')
 
-    plan = [('int4', 8 if q else 9), ('mix', 6 if q else 8), ('tiny', 6 if q else 8), ('i64', 6 if q else 7)]
-    for alpha, maxlen in plan:
-        part = f'si-exhaustive-{alpha}'
-        cases = _batches(alpha, maxlen)
+    plan = [('int4', 8 if q else 9, 'std'), ('mix', 6 if q else 8, 'std'), ('tiny', 6 if q else 8, 'std'),
+            ('i64', 6 if q else 7, 'std'), ('i32s', 6 if q else 7, 'std'), ('u16', 6 if q else 7, 'std'),
+            ('int4', 7 if q else 8, 'edge'), ('i64', 6 if q else 7, 'edge')]
+    for alpha, maxlen, pset in plan:
+        part = f'si-exhaustive-{alpha}' + ('' if pset == 'std' else '-' + pset)
+        npct = len(PSETS[pset])
+        cases = _batches(alpha, maxlen, pset)
         nvec = sum(4 ** l for l in range(1, maxlen + 1))
-        print(f'[C18] {part}: {nvec} vectors x {len(PERCENTS)} percents = {nvec * len(PERCENTS)} calls in {len(cases)} batches',
+        print(f'[C18] {part}: {nvec} vectors x {npct} percents = {nvec * npct} calls in {len(cases)} batches',
               flush=True)
         pay = ctx.pmap(part, si_batch, cases, horizon=300, chunk=1, quiet=True)
         total = 0
@@ -454,21 +589,45 @@ def run(ctx):
                 if k < 20:       # first (= simplest) failing vectors, as single-vector replayable cases
                     seen[key] = k + 1
                     ctx.violation(part, key, msg, case=(a, tuple(vec), pc), fn=si_single)
-        assert total == nvec * len(PERCENTS), (total, nvec)
+        assert total == nvec * npct, (total, nvec)
         ctx.evaluations += total - len(cases)
         ctx.spaces[part + ':vectors'] = nvec
         ctx.spaces[part + ':calls'] = total
 
     kinds = ('gauss', 'uniform', 'quant16')
+    ikinds = ('gauss@i4', 'quant16@i8', 'uniform@i2', 'gauss@u2', 'gauss@f4')     # raw-count / float32 records
     lens = (10 ** 4, 2 ** 17)
     long_cases = [(k, n, p, ctx.seed + j) for n in lens for k in kinds for p in PERCENTS
                   for j in range(1 if q else 4)]
     # (p, n) pairs whose product is an exact multiple of 100 while (p/100)*n rounds below it
     long_cases += [(k, n, p, ctx.seed) for n in (50, 100, 200, 800) for k in kinds for p in (29, 57, 58, 7, 14, 28)]
     long_cases += [(k, n, 99.99, ctx.seed) for n in (10 ** 4, 2 * 10 ** 4, 3 * 10 ** 4) for k in kinds]
+    # integer-dtype / float32 records with the standard percentages
+    long_cases += [(k, n, p, ctx.seed + j) for n in lens for k in ikinds for p in PERCENTS for j in range(1 if q else 2)]
+    # edge percentages on records long enough for a lag >= 1 below 1 % (lag 0 on the shortest ones)
+    long_cases += [(k, n, p, ctx.seed + j) for n in (64, 200, 2000, 10 ** 4, 2 ** 17) for k in kinds + ikinds[:2]
+                   for p in PERCENTS_EDGE for j in range(1 if q else 2)]
     ctx.pmap('si-long', si_long, long_cases, horizon=120)
 
-    ns = range(1, 13)
-    adc_cases = [(k, L, n, o, f, ctx.seed + j) for j in range(1 if q else 3) for L in ADC_LENGTHS for k in ADC_KINDS
-                 for f in ADC_FORMS for n in ns for o in ('n', 'v')]
+    # quick tier: the float64 form runs every length; the other dtype forms skip 9999 (same lag class as 10000) and leave
+    # 2^17 to the sweeps (float64: both protections; i4/u2/i2fs: unprotected).  thorough: the full product.
+    def single_lengths(dt):
+        return ADC_LENGTHS if (dt == 'f8' or not q) else tuple(L for L in ADC_LENGTHS if L not in (9999, 2 ** 17))
+
+    def sweep_member(dt, L, prot):
+        if not q or dt == 'f8':
+            return True
+        if L == 2 ** 17:
+            return dt in ('i4', 'u2', 'i2fs') and not prot
+        return L != 9999
+
+    adc_cases = [(k, L, dt, n, o, f, ctx.seed + j) for j in range(1 if q else 3) for dt in ADC_DTYPES
+                 for L in single_lengths(dt) for k in ADC_KINDS for f in ADC_FORMS for n in ADC_NS for o in ('n', 'v')]
     ctx.pmap('adc', adc_case, adc_cases, horizon=120)
+
+    sweep_cases = [(k, L, dt, f, prot, ctx.seed + j) for j in range(1 if q else 2) for dt in ADC_DTYPES for L in ADC_LENGTHS
+                   for k in ADC_KINDS for f in ADC_FORMS for prot in (False, True) if sweep_member(dt, L, prot)]
+    pay = ctx.pmap('adc-sweep', adc_sweep, sweep_cases, horizon=300)
+    ncalls = sum(p['calls'] for p in pay if p)
+    ctx.evaluations += ncalls - len(sweep_cases)
+    ctx.spaces['adc-sweep:calls'] = ncalls
